@@ -4,7 +4,8 @@ SPEC = {
     "id": "C09",
     "level": "other",
     "sidecars": ["trie_dict", "hostname_trie_set"],
-    "functions": [T + "__init__", T + "set_and_prune_if_shorter", T + "longest_matching_prefix_value", T + "__len__", T + "prefixes",
+    "function_sidecars": {'ural/utils.py:safe_urlsplit': ["utils"]},
+    "functions": ['ural/utils.py:safe_urlsplit', T + "__init__", T + "set_and_prune_if_shorter", T + "longest_matching_prefix_value", T + "__len__", T + "prefixes",
                   H + "__init__", H + "add", H + "match", H + "__len__", H + "__iter__"],
     "lemma_modules": ["props.C09_lemmas"],
     "bounded": ["bcheck.c09"],
